@@ -253,6 +253,7 @@ def generate(rng, tier, index):
     sc["temperature"] = rng.choice([5.0, 1.0, 0.2])
     sc["decay"] = rng.choice([0.995, 0.9, 0.5])
     sc["solve_initial"] = rng.random() < 0.3
+    sc["verbose"] = rng.random() < 0.15  # the progress-printing branches of generate_problem
     sc["use_builder_pattern"] = rng.random() < 0.4
     sc["interfere"] = [rng.choice(["none", "consume", "reseed"]), rng.choice(["consume", "reseed", "consume"])]
     sc["consume_n"] = [rng.randint(0, 3), rng.randint(1, 7)]
@@ -1163,8 +1164,14 @@ def exec_gen(sc, variant, res, check=True, retain=True):
             temperature_decay=sc["decay"],
             max_steps=sc["max_steps"],
             solve_initial_problem=sc["solve_initial"],
+            verbose=bool(sc.get("verbose")),
         )
+        import contextlib
+        import io
+
+        quiet = contextlib.redirect_stderr(io.StringIO()) if sc.get("verbose") else contextlib.nullcontext()
         try:
+          with quiet:
             pattern = build_pattern(pat_json, G)
             if sc["use_builder_pattern"]:
                 # generate_problem builds the neighbour generator itself; the initial problem is
